@@ -14,7 +14,7 @@
    also reads non-minimal ones.  The property quantifies over frames whose variable byte integers are
    minimal, i.e. on which both modes agree. *)
 From MQ Require Import Proofs.Tactics Model.Valid Model.Stream Spec.SpecParse Proofs.VarIntLaws Proofs.TopicFilterEq
-  Proofs.PollSched Proofs.Spec3Base Proofs.Spec3 Proofs.Spec5Def Proofs.Spec5.
+  Proofs.PollSched Proofs.FrontAgree Proofs.Spec3Base Proofs.Spec3 Proofs.Spec5Def Proofs.Spec5.
 Open Scope N_scope.
 
 (* ---------------- v3: equality with the grammar, no side condition ---------------- *)
@@ -102,6 +102,36 @@ Proof.
   - right; eexists; reflexivity.
 Qed.
 Print Assumptions C04_v5_poll_is_strict.
+
+(* ... under every delivery schedule of the frame followed by anything (C05 + the frame characterisation) *)
+Theorem C04_v3_poll_is_strict_any_schedule : forall prof cb body l t, len body < 268435456 ->
+  bytes_of l = cb :: write_var_int (len body) ++ body ->
+  let r := rr_res V3.packet (F3.poll_drive prof l t) in
+  match strict3 prof cb (len body) body with
+  | Some p => exists total b, r = Some (Ok (total, b, p))
+  | None => (exists e, r = Some (Err e)) \/ (exists s, r = Some (Panic s))
+  end.
+Proof.
+  intros prof cb body l t Hl Hb. cbv zeta.
+  destruct (FrontAgree.C05_v3_same_as_one_read prof l t) as [E _]. rewrite E, Hb.
+  exact (C04_v3_poll_is_strict prof cb body t Hl).
+Qed.
+Print Assumptions C04_v3_poll_is_strict_any_schedule.
+
+(* ... under every delivery schedule of the frame followed by anything (C05 + the frame characterisation) *)
+Theorem C04_v5_poll_is_strict_any_schedule : forall prof cb body l t, len body < 268435456 ->
+  bytes_of l = cb :: write_var_int (len body) ++ body ->
+  let r := rr_res V5.packet (F5.poll_drive prof l t) in
+  match strict5 prof cb (len body) body with
+  | Some p => exists total b, r = Some (Ok (total, b, p))
+  | None => (exists e, r = Some (Err e)) \/ (exists s, r = Some (Panic s))
+  end.
+Proof.
+  intros prof cb body l t Hl Hb. cbv zeta.
+  destruct (FrontAgree.C05_v5_same_as_one_read prof l t) as [E _]. rewrite E, Hb.
+  exact (C04_v5_poll_is_strict prof cb body t Hl).
+Qed.
+Print Assumptions C04_v5_poll_is_strict_any_schedule.
 
 (* non-vacuity: frames on which the two parse modes agree exist on both sides of the verdict *)
 Example ex_C04 :
